@@ -371,14 +371,13 @@ func runVars(ic *IC, ex *exec.Exec, env *Env, fn exec.Value, sh varShape, pkgs m
 			exps = append(exps, refExported(ex, p.Name, bound+10))
 		}
 		if kfExport != nil {
-			// known class: two user-chosen names that differ only in the case of the first letter / initialism casing
-			var assume []*smt.Term
-			for i := range users {
-				for j := i + 1; j < len(users); j++ {
-					assume = append(assume, c.Not(c.Eq(refExported(ex, users[i], bound), refExported(ex, users[j], bound))))
+			// known class: two identifiers of the method differ only in letter case (a / A, acl / acL)
+			for i := range params {
+				for j := i + 1; j < len(params); j++ {
+					ex.AssumeDomain(c.Not(c.Eq(ex.CaseMap(params[i].Name, false, bound+10), ex.CaseMap(params[j].Name, false, bound+10))))
 				}
 			}
-			ex.AssumeNoCheck(c.And(assume...))
+			ic.kfHit("C12", "vars:names-equal-after-export")
 		}
 		ex.Oblige(c.Distinct(exps...), "C12: distinct parameters yield distinct call-record field names")
 	}
